@@ -163,9 +163,8 @@ def search_runs(chk, r, n):
         else:
             kinds = ["F2", "FL", "F3"]
         tmc = r.choice([0, 0, 1])
-        pts = [dict(x=float(r.choice([0.1, 0.3])), Q2=float(r.choice([20.0, 50.0]))) for _ in range(r.choice([1, 2]))]
-        if r.random() < 0.3:
-            pts.append(dict(Q2=30.0, x=0.2))
+        # several points, deliberately *not* in Q2 order (the runner evaluates them Q2-sorted)
+        pts = [dict(x=0.1, Q2=90.0), dict(x=float(r.choice([0.1, 0.3])), Q2=float(r.choice([20.0, 50.0]))), dict(x=0.3, Q2=50.0), dict(Q2=20.0, x=0.2)][: r.choice([2, 3, 4])]
         obs = {f"{r.choice(kinds)}_{r.choice(['total', 'light', 'charm'])}": pts}
         if r.random() < 0.4:
             obs[("XSHERACC" if process == "CC" else "XSHERANC") + "_total"] = [dict(x=0.1, Q2=20.0, y=0.3)]
@@ -173,7 +172,10 @@ def search_runs(chk, r, n):
         t = cards.theory(PTO=r.choice([0, 1]), FNS=scheme, NfFF=r.choice([3, 4]), TMC=tmc, CKM=r.choice([cards.CKM_DEFAULT, [0.97428, 0.2253, 0.00347, 0.2252, 0.97345, 0.041, 0.00862, 0.0403, 0.999152]]))
         if r.random() < 0.3:
             del t["PTODIS"]
-        o = cards.obs(obs, prDIS=process, ProjectileDIS=r.choice(list(cards.PROJECTILES)) if process == "CC" else r.choice(["electron", "positron"]), TargetDIS=tgt, interpolation_xgrid=cards.default_grid(7, 1e-2))
+        grid = cards.default_grid(7, 1e-2)
+        if r.random() < 0.5:
+            grid = list(reversed(grid))  # legal: the interpolator sorts it
+        o = cards.obs(obs, prDIS=process, ProjectileDIS=r.choice(list(cards.PROJECTILES)) if process == "CC" else r.choice(["electron", "positron"]), TargetDIS=tgt, interpolation_xgrid=grid)
         t0, o0 = copy.deepcopy(t), copy.deepcopy(o)
         problems = []
         try:
@@ -192,8 +194,13 @@ def search_runs(chk, r, n):
                         problems.append("second Runner built from the same objects gives different results")
             if not (deep_equal(out.theory, t0) and deep_equal(out.observables, o0)):
                 problems.append("output does not echo the cards it was given")
-            if list(out["xgrid"]["grid"]) != o0["interpolation_xgrid"] or out["xgrid"]["log"] != o0["interpolation_is_log"] or out["polynomial_degree"] != o0["interpolation_polynomial_degree"]:
-                problems.append("grid not echoed")
+            used = [float(v) for v in runner.configs.managers["interpolator"].xgrid.raw]
+            if [float(v) for v in out["xgrid"]["grid"]] != used or used != sorted(set(o0["interpolation_xgrid"])) or out["xgrid"]["log"] != o0["interpolation_is_log"] or out["polynomial_degree"] != o0["interpolation_polynomial_degree"]:
+                problems.append("output does not record the grid actually used")
+            for name, kins in obs.items():
+                for kin, res_ in zip(kins, out[name]):
+                    if float(res_.x) != kin["x"] or float(res_.Q2) != kin["Q2"]:
+                        problems.append("results not in the order of the request")
             if list(out["pids"]) != realrun.BASIS or out["projectilePID"] != cards.PROJECTILES[o0["ProjectileDIS"]]:
                 problems.append("pids / projectilePID wrong")
         except Exception as e:
